@@ -50,7 +50,9 @@ class C06(SCheck):
         f += oracle.check_metadata_after_data(res)
         f += oracle.check_parent_before_child(res)
         if verdict is not None:
-            f += oracle.check_tree(res, verdict, case["steps"][step_i]["inv"], case.get("umask", 0o022), t0)
+            from ..scheck import sparse_applicable
+            f += oracle.check_tree(res, verdict, case["steps"][step_i]["inv"], case.get("umask", 0o022), t0,
+                                   sparse_ok=sparse_applicable(case, case["steps"][step_i]["inv"], plan))
         return f
 
     def compare(self, case, finals):
